@@ -52,8 +52,19 @@ func c15Primary(sm *storage.Manager) *Primary {
 	return p
 }
 
+// c15Reported tells whether the topology the primary reports (GetReplicaInfo, what node-info calls show) lists the
+// replica with the given session id.
+func c15Reported(p *Primary, id string) bool {
+	for _, r := range p.GetReplicaInfo() {
+		if r.Address == id+":50053" {
+			return true
+		}
+	}
+	return false
+}
+
 func c15Session(id string, st *fakeStream) *ReplicaSession {
-	return &ReplicaSession{ID: id, Stream: st, Connected: true, Active: true, LastActivity: time.Now(),
+	return &ReplicaSession{ID: id, Stream: st, Connected: true, Active: true, LastActivity: time.Now(), ListenerAddress: id + ":50053",
 		SupportedCodecs: []proto.CompressionCodec{proto.CompressionCodec_NONE}}
 }
 
@@ -128,9 +139,10 @@ func VerifC15_HeartbeatDropsSilentReplicas() {
 		mustDrop := idle[i] > timeout || (idle[i] > interval && st[i].fail)
 		s := p.getSession(ids[i])
 		if mustDrop {
-			vsym.Assert(s == nil, "a replica that is silent beyond the timeout (or whose stream fails) is still in the reported topology")
+			vsym.Assert(!c15Reported(p, ids[i]), "a replica that is silent beyond the timeout (or whose stream fails) is still in the reported topology")
+			vsym.Assert(s == nil, "the heartbeat monitor found a replica dead but kept its session")
 		} else {
-			vsym.Assert(s != nil && s.Connected && s.Active, "a healthy replica was dropped by the heartbeat monitor")
+			vsym.Assert(c15Reported(p, ids[i]) && s != nil && s.Connected && s.Active, "a healthy replica was dropped by the heartbeat monitor")
 			if idle[i] > interval {
 				vsym.Assert(len(st[i].sent) == 1, "an idle but healthy replica was not sent a heartbeat")
 			}
@@ -164,7 +176,73 @@ func VerifC15_FailingReplicaDoesNotFailWrites() {
 		got += len(r.Entries)
 	}
 	vsym.Assert(got == n, "the healthy replica was not sent every write while another replica fails")
-	vsym.Assert(!sb.Connected, "a replica whose stream fails is still reported as connected")
+	vsym.Assert(!c15Reported(p, "bad"), "a replica whose stream fails is still in the reported topology")
+	vsym.Assert(c15Reported(p, "good"), "the healthy replica left the reported topology")
 	vsym.Assert(atomic.LoadInt32(&bad.sends) <= 1, "the primary keeps sending to a replica it has marked disconnected")
+	vsym.Reach("done")
+}
+
+// VerifC15_PollVsWriteNoDeadlock: a healthy replica session is served by the primary's polling sender
+// (sendUpdatedEntries, what the StreamWAL loop calls on every tick) while a client writes. Both complete: the
+// push path (inside the log append) and the polling path take the log, primary and session locks in compatible
+// orders.
+func VerifC15_PollVsWriteNoDeadlock() {
+	cfg := config.NewDefaultConfig(vsym.Dir())
+	cfg.WALSyncMode = config.SyncMode(vsym.IntRange("sync", 0, 2))
+	sm, err := storage.NewManager(cfg, stats.NewAtomicCollector())
+	vsym.Assert(err == nil, "NewManager failed")
+	k := vsym.Bytes("k", 1)
+	vsym.Assert(sm.Put(k, vsym.Bytes("v", 1)) == nil, "first put failed")
+	p := c15Primary(sm)
+	st := &fakeStream{}
+	session := c15Session("r1", st)
+	p.registerReplicaSession(session)
+	var wdone, pdone int32
+	go func() {
+		sm.Put(k, vsym.Bytes("v2", 1))
+		atomic.StoreInt32(&wdone, 1)
+	}()
+	go func() {
+		p.sendUpdatedEntries(session)
+		atomic.StoreInt32(&pdone, 1)
+	}()
+	vsym.Quiesce()
+	vsym.Reach("probed")
+	vsym.Assert(atomic.LoadInt32(&wdone) == 1, "a client write never returns while the primary polls the log for a healthy replica (lock-order deadlock)")
+	vsym.Assert(atomic.LoadInt32(&pdone) == 1, "the polling sender never returns while a client writes (lock-order deadlock)")
+	vsym.Reach("done")
+}
+
+// VerifC15_HeartbeatVsWriteNoDeadlock: the heartbeat monitor's sweep finds a replica dead (its stream fails or it has
+// been silent beyond the timeout) while a client writes and, optionally, an acknowledgement for that session
+// arrives. Everything completes, the dead replica leaves the topology, the healthy one stays.
+func VerifC15_HeartbeatVsWriteNoDeadlock() {
+	cfg := config.NewDefaultConfig(vsym.Dir())
+	sm, err := storage.NewManager(cfg, stats.NewAtomicCollector())
+	vsym.Assert(err == nil, "NewManager failed")
+	k := vsym.Bytes("k", 1)
+	p := c15Primary(sm)
+	bad := c15Session("bad", &fakeStream{fail: true})
+	if vsym.IntRange("silent", 0, 1) == 1 {
+		bad.LastActivity = time.Now().Add(-2 * p.heartbeat.config.Timeout)
+	} else {
+		bad.LastActivity = time.Now().Add(-2 * p.heartbeat.config.Interval)
+	}
+	p.registerReplicaSession(bad)
+	p.registerReplicaSession(c15Session("good", &fakeStream{}))
+	withAck := vsym.IntRange("ack", 0, 1) == 1
+	var wdone, hdone, adone int32
+	go func() { sm.Put(k, vsym.Bytes("v", 1)); atomic.StoreInt32(&wdone, 1) }()
+	go func() { p.heartbeat.checkSessions(); atomic.StoreInt32(&hdone, 1) }()
+	if withAck {
+		go func() { p.updateSessionAck("bad", 1); atomic.StoreInt32(&adone, 1) }()
+	}
+	vsym.Quiesce()
+	vsym.Reach("probed")
+	vsym.Assert(atomic.LoadInt32(&wdone) == 1, "a client write never returns while the heartbeat monitor drops a dead replica")
+	vsym.Assert(atomic.LoadInt32(&hdone) == 1, "the heartbeat sweep never returns while a client writes")
+	vsym.Assert(!withAck || atomic.LoadInt32(&adone) == 1, "an acknowledgement never returns while the heartbeat monitor drops a replica")
+	vsym.Assert(!c15Reported(p, "bad"), "a dead replica is still in the reported topology after the heartbeat sweep")
+	vsym.Assert(c15Reported(p, "good"), "a healthy replica was dropped from the reported topology")
 	vsym.Reach("done")
 }
